@@ -272,6 +272,9 @@ func c01Stress(c *mon.Ctx, r *mon.Rand) {
 					sh[k].Inc(2)
 					atomic.AddInt64(&sharedSum[k], 2)
 				}
+				if len(mine) == 0 {
+					continue // fewer counters than workers: this one only uses the shared ones
+				}
 				x := mine[wr.Intn(len(mine))]
 				v := int64(wr.Range(0, 5))
 				x.sum += v
